@@ -425,4 +425,49 @@ example : (runCons 8 (build 8 (.each .ident (.src (.gen 0 [Val.int 1, Val.int 2,
     ((pipe_sem 8 (.each .ident (.src (.gen 0 [Val.int 1, Val.int 2, Val.int 3])))
       [Val.int 1, Val.int 2, Val.int 3] rfl rfl rfl trivial).1) (by simp)
 
+/-- **copy_interleaving_independent.** After `c = koto.copy it`, however the calls on the copy and on
+the original are interleaved (from either end), each of the two answers exactly as if it were called
+alone: the copy's outputs are those of its own call sequence on the copied state, the original's
+those of its own — no call on one is visible to the other. (Value semantics of the model; the
+correspondence harness checks `make_copy` of every adaptor against it with copies taken at every
+position up to past the end of the source.) -/
+theorem copy_interleaving_independent (post : List (Bool × Bool)) :
+    ∀ (a b : It),
+    (runCopyOps post a b).1 = (runCalls ((post.filter (·.1)).map (·.2)) a).1 ∧
+    (runCopyOps post a b).2.1 = (runCalls ((post.filter (fun p => !p.1)).map (·.2)) b).1 := by
+  induction post with
+  | nil => intro a b; exact ⟨rfl, rfl⟩
+  | cons x post ih =>
+    intro a b
+    obtain ⟨w, d⟩ := x
+    cases w with
+    | true =>
+      cases d with
+      | true =>
+        have ⟨i1, i2⟩ := ih ⟨a.c, (a.c.next a.s).st⟩ b
+        simp only [runCopyOps, runCalls, It.next, List.filter_cons, List.map_cons, if_true] at i1 i2 ⊢
+        simp only [Bool.not_true, Bool.false_eq_true, if_false]
+        exact ⟨by rw [i1], i2⟩
+      | false =>
+        have ⟨i1, i2⟩ := ih ⟨a.c, (a.c.back a.s).st⟩ b
+        simp only [runCopyOps, runCalls, It.back, List.filter_cons, List.map_cons, if_true] at i1 i2 ⊢
+        simp only [Bool.not_true, Bool.false_eq_true, if_false]
+        exact ⟨by rw [i1], i2⟩
+    | false =>
+      cases d with
+      | true =>
+        have ⟨i1, i2⟩ := ih a ⟨b.c, (b.c.next b.s).st⟩
+        simp only [runCopyOps, runCalls, It.next, List.filter_cons, List.map_cons, Bool.false_eq_true,
+          if_false, Bool.not_false, if_true] at i1 i2 ⊢
+        exact ⟨i1, by rw [i2]⟩
+      | false =>
+        have ⟨i1, i2⟩ := ih a ⟨b.c, (b.c.back b.s).st⟩
+        simp only [runCopyOps, runCalls, It.back, List.filter_cons, List.map_cons, Bool.false_eq_true,
+          if_false, Bool.not_false, if_true] at i1 i2 ⊢
+        exact ⟨i1, by rw [i2]⟩
+
+example : (runCopyOps [(true, true), (false, true), (true, true)]
+      (build 8 (.cycle (.src (.seq [Val.int 1, Val.int 2]))))
+      (build 8 (.cycle (.src (.seq [Val.int 1, Val.int 2]))))).1 = [Val.int 1, Val.int 2] := rfl
+
 end KotoVerif.C13
